@@ -363,6 +363,9 @@ pub fn gen_char(t: &mut Tape, _p: &Gp) -> char {
     }
 }
 
+/// Lengths around representation boundaries (u7/u8/u12/u16 and just below / above).
+pub const BOUNDARY_LENS: &[usize] = &[127, 128, 129, 255, 256, 257, 1000, 4095, 4096, 4097, 65535, 65536, 65537];
+
 const SMALL_STRINGS: &[&str] = &["", "a", "é", "ab", "日本", "a\u{301}", "😀"];
 
 pub fn gen_string(t: &mut Tape, p: &Gp) -> String {
@@ -371,6 +374,22 @@ pub fn gen_string(t: &mut Tape, p: &Gp) -> String {
     }
     if t.chance(24) {
         return SMALL_STRINGS[t.below(SMALL_STRINGS.len())].to_string();
+    }
+    if p.mega && p.depth == 0 && !t.chance(40) {
+        let unit = ["a", "é", "日"][t.below(3)];
+        return unit.repeat((65536 + t.below(3000)) / unit.len());
+    }
+    if p.depth == 0 && t.chance(6) {
+        // size boundaries: byte lengths around 2^7, 2^8, 2^12, 2^16 (a repeated 1..4-byte unit,
+        // so the whole string costs three tape bytes)
+        let unit = ["a", "é", "日", "😀", "ab"][t.below(5)];
+        let target = BOUNDARY_LENS[t.below(BOUNDARY_LENS.len())];
+        let reps = target / unit.len();
+        let mut s = unit.repeat(reps);
+        if t.bool() {
+            s.push('z');
+        }
+        return s;
     }
     let (small, big) = p.max_len();
     let n = t.len(small + 2, if p.big { 2048 } else { big * 2 });
@@ -650,6 +669,20 @@ impl Elem for String {
 
 pub fn gen_vec<T>(t: &mut Tape, p: &Gp, mut f: impl FnMut(&mut Tape, &Gp) -> T) -> Vec<T> {
     let (small, big) = p.max_len();
+    if !p.small && p.depth == 0 && (t.chance(4) || p.mega) {
+        // element-count boundaries: 255/256/257/1000 tiny elements (mega: 70 000)
+        let n = if p.mega { 70_000 + t.below(1000) } else { [255usize, 256, 257, 1000][t.below(4)] };
+        let q = Gp { small: true, depth: p.depth + 2, mega: false, ..p.clone() };
+        // every element is generated from a two-byte tape derived from its position (a pure
+        // function of the case; keeps the real tape short)
+        let mut out = Vec::with_capacity(n);
+        let salt = t.u8();
+        for i in 0..n {
+            let b = [((i % 3) as u8).wrapping_mul(85).wrapping_add(salt), ((i % 7) as u8).wrapping_mul(36)];
+            out.push(f(&mut Tape::new(&b), &q));
+        }
+        return out;
+    }
     let n = if p.small { t.below(4) } else { t.len(small, big) };
     let q = p.deeper();
     (0..n).map(|_| f(t, &q)).collect()
@@ -832,7 +865,9 @@ impl Spec for OwnedZst {
     }
     fn gen(t: &mut Tape, p: &Gp) -> u64 {
         if p.small {
-            return t.below(3) as u64;
+            // the small domain keeps one length at the u32 boundary: offsets of collapsing /
+            // pair-indexed regions cross it within a few pushes
+            return [0u64, 1, 1 << 32, 2][t.below(4)];
         }
         match t.below(10) {
             0 => 0,
@@ -913,11 +948,20 @@ impl Spec for OwnedZst {
         m.off += *v as usize;
         Some((s, m.off))
     }
+    fn admissible(m: &OffsetM, v: &u64) -> bool {
+        // total element count must stay inside usize (Vec<()> panics with capacity overflow
+        // otherwise, which is not a defect of the crate)
+        // (also keeps merge/reserve sums over up to three such regions inside usize)
+        (m.off as u128) + (*v as u128) <= (1u128 << 62) + (1u128 << 41)
+    }
     fn used_bounds(_vs: &[&u64]) -> (usize, usize) {
         (0, 0)
     }
     fn classes(v: &u64, out: &mut Vec<&'static str>) {
         out.push("zst");
+        if *v >= 1 << 62 {
+            out.push("zst-len-2^62");
+        }
         if *v > u32::MAX as u64 {
             out.push("zst-len-above-u32");
         }
